@@ -326,7 +326,7 @@ let check_metrics (arena : unit arena) (root : int) (fuel : nat) (idxs : int lis
           if List.map int_of l <> all_idx then
             viol "metrics-index-iter" (Printf.sprintf "%s yields [%s], the nodes of the tree in index order are [%s]" nm (ints (List.map int_of l)) (ints all_idx));
           if List.map int_of l <> List.map ii (node_indices arena) then bump "mirror_mismatch"
-        | List (Atom (("terminal_indices" | "terminals") as nm) :: l) ->
+        | List (Atom (("terminal_indices" | "terminals" | "terminals_mut") as nm) :: l) ->
           bump "metric_values";
           if List.map int_of l <> term_idx then
             viol "metrics-index-iter" (Printf.sprintf "%s yields [%s], the nodes without children in index order are [%s]" nm (ints (List.map int_of l)) (ints term_idx));
